@@ -77,6 +77,10 @@ EDITS=[
  ("C11","posix-accepts-test-clause","syntax/parser.go",("\t\tcase \"[[\":\n\t\t\tif p.lang.in(langBashLike | LangMirBSDKorn | LangZsh) {\n\t\t\t\tp.testClause(s)\n\t\t\t}","\t\tcase \"[[\":\n\t\t\tp.testClause(s)"),"syntax#posix-gate@Parser.testClause:new-TestClause"),
  ("C11","posix-accepts-dollar-quotes","syntax/lexer.go",("\t\t\tif !p.lang.in(langBashLike | LangMirBSDKorn | LangZsh) {\n\t\t\t\tbreak\n\t\t\t}\n\t\t\tp.rune()\n\t\t\treturn dollSglQuote","\t\t\tp.rune()\n\t\t\treturn dollSglQuote"),"syntax#posix-gate@"),
  ("C11","posix-set-widened","syntax/parser.go",("p.checkLang(p.pos, langBashLike|LangMirBSDKorn|LangZsh, \"arrays\")\n\t\tas.Array = &ArrayExpr{Lparen: p.pos}","p.checkLang(p.pos, langBashLike|LangMirBSDKorn|LangZsh|LangPOSIX, \"arrays\")\n\t\tas.Array = &ArrayExpr{Lparen: p.pos}"),"syntax#posix-gate@Parser.getAssign"),
+ ("C20","atoi-leading-zero-decimal","expand/arith.go",("\tcase strings.HasPrefix(s, \"0\"):\n\t\tbase = 8","\tcase strings.HasPrefix(s, \"0\"):\n\t\tbase = 10"),"expand.atoi#ensures@literal-forms"),
+ ("C20","atoi-base-limit-36","expand/arith.go",("if err != nil || base < 2 || base > 64 {","if err != nil || base < 2 || base > 36 {"),"expand.atoi#ensures@literal-forms"),
+ ("C20","large-base-upper-case-digits","expand/arith.go",("d = int64(c-'A') + 36","d = int64(c-'A') + 10"),"expand.atoiLargeBase#ensures@"),
+ ("C20","large-base-accepts-digit-equal-to-base","expand/arith.go",("\t\tif d >= base {\n\t\t\treturn 0","\t\tif d > base {\n\t\t\treturn 0"),"expand.atoiLargeBase#"),
 ]
 SEEDS=[ # prop, seed dir, expect
  ("C09","C09-2","syntax.ArithmExp.End#"),
